@@ -43,6 +43,21 @@ func isCall(e ast.Expr, pkg, fn string) (*ast.CallExpr, bool) {
 	return c, ok && id.Name == pkg && s.Sel.Name == fn
 }
 
+// replCall recognises strings.ReplaceAll(s, old, new) and strings.Replace(s, old, new, -1).
+func replCall(e ast.Expr) (*ast.CallExpr, bool) {
+	if c, ok := isCall(e, "strings", "ReplaceAll"); ok && len(c.Args) == 3 {
+		return c, true
+	}
+	if c, ok := isCall(e, "strings", "Replace"); ok && len(c.Args) == 4 {
+		if u, isU := c.Args[3].(*ast.UnaryExpr); isU && u.Op == token.SUB {
+			if n, isN := u.X.(*ast.BasicLit); isN && n.Value == "1" {
+				return c, true
+			}
+		}
+	}
+	return nil, false
+}
+
 // the rules of parser/thrift.peg the reader model follows, whitespace-normalised
 var expectedPeg = map[string]string{
 	"EscapeLiteralChar": `'\\' ["']`,
@@ -117,7 +132,7 @@ func extract(repo string) error {
 		case "DumpIDL":
 			ast.Inspect(fd.Body, func(n ast.Node) bool {
 				if e, ok := n.(ast.Expr); ok {
-					if c, ok := isCall(e, "strings", "Replace"); ok && len(c.Args) == 4 {
+					if c, ok := replCall(e); ok {
 						a, ok1 := strLit(c.Args[1])
 						b, ok2 := strLit(c.Args[2])
 						if ok1 && ok2 {
@@ -135,7 +150,7 @@ func extract(repo string) error {
 		case "writeString":
 			ast.Inspect(fd.Body, func(n ast.Node) bool {
 				if e, ok := n.(ast.Expr); ok {
-					if c, ok := isCall(e, "strings", "ReplaceAll"); ok && len(c.Args) == 3 {
+					if c, ok := replCall(e); ok {
 						ampFrom, _ = strLit(c.Args[1])
 						ampTo, _ = strLit(c.Args[2])
 					}
@@ -154,7 +169,7 @@ func extract(repo string) error {
 		case "printAnnotation", "printConstTypedValue":
 			ast.Inspect(fd.Body, func(n ast.Node) bool {
 				if e, ok := n.(ast.Expr); ok {
-					if c, ok := isCall(e, "strings", "ReplaceAll"); ok && len(c.Args) == 3 {
+					if c, ok := replCall(e); ok {
 						if _, ok := isCall(c.Args[0], "", "joinQuotes"); ok {
 							a, _ := strLit(c.Args[1])
 							b, _ := strLit(c.Args[2])
